@@ -74,6 +74,7 @@ type FuncContract struct {
 	GhostUpd    []*GhostUpdate
 	Dispatch    map[string][]string // function-typed variable -> candidate named functions
 	CountedPure map[string]bool     // `callback pure NAME counted`
+	CallsEffects map[string][]string // `calls VAR modifies ...`: assumed effects of calls through VAR
 	Iter        *IterSpec
 	Inline      bool // callee body is inlined at call sites instead of using a contract
 	NoBody      bool // do not verify body even though not trusted (never set silently)
@@ -161,7 +162,7 @@ var clauseKeywords = map[string]bool{
 	"modifies": true, "loop": true, "closure": true, "canary": true, "assert": true, "assume": true, "ghost": true,
 	"spec": true, "axiom": true, "lemma": true, "regex": true, "property": true, "reveal": true,
 	"use": true, "decreases": true, "yields": true, "where": true, "distinct": true, "complete": true,
-	"mayfail": true, "begins": true, "callback": true, "inline": true, "table": true, "package": true, "skip": true, "ordered": true, "rec": true, "dispatch": true,
+	"mayfail": true, "begins": true, "callback": true, "inline": true, "table": true, "package": true, "skip": true, "ordered": true, "rec": true, "dispatch": true, "calls": true,
 }
 
 type rawLine struct {
@@ -426,6 +427,26 @@ func (c *Contracts) ParseText(path string, text string, pkgPath string) error {
 					cur.CountedPure = map[string]bool{}
 				}
 				cur.CountedPure[f[1]] = true
+			}
+		case "calls":
+			// calls VAR modifies heap T.f, heap T.*, ghost.x: a call through the function-typed variable VAR has
+			// only these effects (functional options write only the record they are given): an ASSUMPTION, listed
+			if cur == nil {
+				return fail(l, "calls outside func")
+			}
+			f := strings.SplitN(rest, " modifies", 2)
+			if len(f) != 2 || strings.TrimSpace(f[0]) == "" {
+				return fail(l, "calls VAR modifies EFFECTS expected")
+			}
+			if cur.CallsEffects == nil {
+				cur.CallsEffects = map[string][]string{}
+			}
+			name := strings.TrimSpace(f[0])
+			cur.CallsEffects[name] = []string{}
+			for _, m := range strings.Split(f[1], ",") {
+				if m = strings.TrimSpace(m); m != "" {
+					cur.CallsEffects[name] = append(cur.CallsEffects[name], m)
+				}
 			}
 		case "dispatch":
 			// dispatch VAR over f1, f2, ...: calls through the function-typed variable VAR are resolved
